@@ -173,7 +173,10 @@ func classChar(r *rng, c int) string {
 	case '\n':
 		return `\n`
 	case '-':
-		return `\-`
+		// an escaped dash is a CLASS_CHAR in every spelling, never the range operator
+		if r.chance(1, 2) {
+			return `\-`
+		}
 	case '\\':
 		return `\\`
 	case ']':
@@ -187,7 +190,7 @@ func classChar(r *rng, c int) string {
 			return `\t`
 		}
 	}
-	raw := c >= 0x20 && c != 0x7F && utf8.ValidRune(rune(c)) && c != 0xFFFD
+	raw := c >= 0x20 && c != 0x7F && c != '-' && utf8.ValidRune(rune(c)) && c != 0xFFFD
 	switch k := r.intn(4); {
 	case k == 0 && raw:
 		return string(rune(c))
@@ -244,6 +247,11 @@ func genClass(r *rng, allowSub bool) *classExpr {
 			b = a
 		}
 		e.items = append(e.items, [2]int{a, b})
+	}
+	if r.chance(1, 3) {
+		// the dash as a member, between two other items (as in [a\-z]), first or last
+		k := r.intn(len(e.items) + 1)
+		e.items = append(e.items[:k], append([][2]int{{'-', '-'}}, e.items[k:]...)...)
 	}
 	if allowSub && r.chance(1, 3) {
 		e.sub = genClass(r, false)
